@@ -28,6 +28,8 @@ def drive(ctx, bindir, name, histories, ops, mode, seed):
     path = ctx.path("trace_%s.ndjson" % name)
     if mode == "scenarios":
         args = [path, "scenarios"]
+    elif mode == "shard-scenarios":
+        args = [path, "shard-scenarios", "5"]
     else:
         args = [path, str(histories), str(ops)] + ([mode] if mode else [])
     lib.run_bin(os.path.join(bindir, "c01_driver"), args, env_extra={"VERIF_SEED": str(seed)}, timeout=3000)
@@ -112,7 +114,7 @@ def run(ctx):
     lib.account_tlc(ctx, r)
 
     # (2) recorded executions of the real wallet, validated by TLC
-    plans = [("scenarios", 0, 0, "scenarios")]
+    plans = [("scenarios", 0, 0, "scenarios"), ("shards", 0, 0, "shard-scenarios")]
     plans += [("base", 12, 70, None), ("ironwood", 8, 70, "ironwood")] if ctx.quick() else \
         [("base%d" % i, 30, 90, None) for i in range(4)] + [("ironwood%d" % i, 30, 90, "ironwood") for i in range(3)]
     totals = {}
